@@ -67,6 +67,15 @@ CLAIMS = {
  "C21": ("type-directed argument agreement at the LocalBuffer.Add call sites, per-item path rule over the drain loop, whole-loop path rule 'every exit consumed the unlock request exactly once', packed layout rules of C23",
          "Decides that buffered packets keep their IP version, key, type, size and parse status and are forwarded exactly once, and that the unlock handshake is consumed exactly once on every exit. Interleavings with the third-party three-point lock are NOT decided.",
          "go/types + go/cfg"),
+ "C19": ("guard-restricted reachability for every constant index / slice of the IP layer (bounds hint or truncation guard on every path), frozen RFC offset oracle, mirror-image rule on the port section, V4/V6 sibling comparison, table-dimension bounds in isCommonPort, hash reversal layout",
+         "Decides that no constant access to the header can be out of bounds behind the fixed-header hint, that offsets are the RFC ones, and that the port rule is mirror-symmetric (the structural reason a conversation's two directions yield mirrored keys). Packets shorter than the fixed IP header are a precondition on the capture source and NOT covered.",
+         "go/types + go/cfg; RFC 791 / 8200 / 9293 / 768 offsets frozen in the checker"),
+ "C20": ("per-entry path rule over FlowLog.transferAndAggregate (emit+reset xor delete), reachability rule 'rotation result always reaches the write-out channel', direction siblings NewFlow/UpdateFlow, key projection layout, once-per-flow column appends in dbData, counter positions at all SetOrUpdate sites, two-orientation lookup",
+         "Decides the structural conservation conditions on every path; conservation as arithmetic over packet sequences and rotation schedules is NOT decided.",
+         "go/types + go/cfg"),
+ "C22": ("interpretation of the comparison-only port heuristic over a complete set of order-type representatives (mirror symmetry), exhaustive table extraction of the TCP-flag and ICMP-type classifiers over the byte domain against RFC numbers, reversed-key insertion sites, hash reversal layout",
+         "Exhaustive over the finite quotient of the heuristics' inputs: opposite verdicts for mirrored packets, handshake and ICMP tables. Address-based heuristics (broadcast/multicast) are taken as given.",
+         "go/types; the interpreter handles only comparison-only code and reports anything else as undecided"),
  "C23": ("per-path packed-record layout extraction (index/slice/unsafe-cast/copy at cursor+const) with writer/reader table comparison",
          "Decides that every field LocalBuffer.Add stores lies inside the cursor stride, fields are disjoint, and Add/Next agree on offset, width, stride and version flag per role; refusal stores nothing. Exact for the layout clause (the one the defect F11 lived in); FIFO behaviour over operation sequences is not decided.",
          "go/types + go/cfg; gc/amd64 sizes for unsafe casts"),
